@@ -1,1 +1,1 @@
-from . import hashes, hashes_bv, countmin, hyperloglog, heavyhitters  # noqa: F401  (registration side effects)
+from . import hashes, hashes_bv, countmin, hyperloglog, heavyhitters, ngram  # noqa: F401  (registration side effects)
